@@ -13,8 +13,46 @@ import ast, sys, binascii
 def hx(s: str) -> str:
     return "x" + binascii.hexlify(s.encode("utf-8", "surrogatepass")).decode()
 
+# CPython counts lines at \n, \r\n and a bare \r; the analyzer's line index (and rustpython's byte
+# offsets fed through it) only knows \n.  Positions are therefore converted CPython (line, col) ->
+# byte offset -> (line, col) in the \n-only convention before they reach the model.
+_CP_STARTS = [0]
+_NL_STARTS = [0]
+
+
+def _set_text(text: str):
+    global _CP_STARTS, _NL_STARTS
+    b = text.encode("utf-8", "surrogatepass")
+    cp, nl = [0], [0]
+    i = 0
+    n = len(b)
+    while i < n:
+        c = b[i]
+        if c == 0x0A:
+            cp.append(i + 1); nl.append(i + 1)
+        elif c == 0x0D:
+            if i + 1 < n and b[i + 1] == 0x0A:
+                cp.append(i + 2); nl.append(i + 2); i += 1
+            else:
+                cp.append(i + 1)
+        i += 1
+    _CP_STARTS, _NL_STARTS = cp, nl
+
+
+def _conv(line: int, col: int):
+    import bisect
+    if line - 1 < len(_CP_STARTS):
+        off = _CP_STARTS[line - 1] + col
+    else:
+        off = _CP_STARTS[-1] + col
+    k = bisect.bisect_right(_NL_STARTS, off) - 1
+    return k + 1, off - _NL_STARTS[k]
+
+
 def rng(n) -> str:
-    return f"{n.lineno} {n.col_offset} {getattr(n, 'end_lineno', n.lineno) or n.lineno} {getattr(n, 'end_col_offset', n.col_offset) or 0}"
+    l, c = _conv(n.lineno, n.col_offset)
+    el, ec = _conv(getattr(n, 'end_lineno', n.lineno) or n.lineno, getattr(n, 'end_col_offset', n.col_offset) or 0)
+    return f"{l} {c} {el} {ec}"
 
 def rust_debug_str(s: str) -> str:
     out = ['"']
@@ -148,6 +186,7 @@ def to_sexp(text: str) -> str:
         m = ast.parse(text)
     except (SyntaxError, ValueError, RecursionError, MemoryError):
         return "invalid"
+    _set_text(text)
     try:
         return "(Module " + " ".join(stmt(s) for s in m.body) + ")"
     except RecursionError:
